@@ -83,3 +83,12 @@ Example C19_example_archive :
   Ok ([ NDirectory [] (mkMeta 1000 1000 16877 5) [];
         NFile [[102; 49]] (mkMeta 1000 1000 33188 7) [] 3 [1; 2; 3] ], []).
 Proof. vm_compute. reflexivity. Qed.
+
+(* only the root entry is nameless: a later entry without a Filename element is refused
+   (commit "fix: archive decoder rejects entries without a name after the root entry") *)
+Example C19_example_nameless_entry :
+  decode_archive (encode_elems [ Entry (mkHeader 64 CaFormatEntry) 0 16877 0 0 0 5;
+                                 Goodbye (mkHeader 40 CaFormatGoodbye) [(0, 0, CaFormatGoodbyeTailMarker)];
+                                 Entry (mkHeader 64 CaFormatEntry) 0 33188 0 0 0 7;
+                                 Payload (mkHeader 17 CaFormatPayload) [1] ]) = Err InvalidFormat.
+Proof. vm_compute. reflexivity. Qed.
